@@ -5,6 +5,7 @@ import (
 	"errors"
 	"fmt"
 	"io"
+	"os"
 	"runtime/debug"
 	"runtime/metrics"
 	"strings"
@@ -128,12 +129,29 @@ func (o *outcome) do(name string, f func() error) (cont bool) {
 // ---------------------------------------------------------------- common wiring of the real services
 
 // noBlocks is the block source handed to the real services: it delivers no block and ends at once.
-type noBlocks struct{}
+//
+// tier2 (and tier1 when the range left to stream is short) ends with io.EOF, as the real services do themselves on
+// their zero-block paths (all executors excluded by the index, outputs already cached, no linear range). A tier1 range
+// of more than maxQuietRange blocks ends with an error instead: a real block source never reports a clean end that
+// far before the stop block (EOF is produced by the pipeline when it SEES the stop block), and OnStreamTerminated
+// walks every store boundary up to the stop block on a clean end.
+type noBlocks struct{ err error }
 
-func (noBlocks) Run(ctx context.Context) error { return io.EOF }
+const maxQuietRange = 100_000
 
-func noBlockStreamFactory(ctx context.Context, h bstream.Handler, startBlockNum int64, stopBlockNum uint64, cursor string, finalBlocksOnly bool, cursorIsTarget bool, logger *zap.Logger, extraOpts ...stream.Option) (service.Streamable, error) {
-	return noBlocks{}, nil
+var errSourceDry = errors.New("c17: block source ended before the stop block")
+
+func (s noBlocks) Run(ctx context.Context) error { return s.err }
+
+func tier2StreamFactory(ctx context.Context, h bstream.Handler, startBlockNum int64, stopBlockNum uint64, cursor string, finalBlocksOnly bool, cursorIsTarget bool, logger *zap.Logger, extraOpts ...stream.Option) (service.Streamable, error) {
+	return noBlocks{io.EOF}, nil
+}
+
+func tier1StreamFactory(ctx context.Context, h bstream.Handler, startBlockNum int64, stopBlockNum uint64, cursor string, finalBlocksOnly bool, cursorIsTarget bool, logger *zap.Logger, extraOpts ...stream.Option) (service.Streamable, error) {
+	if stopBlockNum != 0 && startBlockNum >= 0 && (stopBlockNum <= uint64(startBlockNum) || stopBlockNum-uint64(startBlockNum) <= maxQuietRange) {
+		return noBlocks{io.EOF}, nil
+	}
+	return noBlocks{errSourceDry}, nil
 }
 
 var errNoTier2 = errors.New("no tier2 in this check")
@@ -225,7 +243,13 @@ func runTier1(ctx context.Context, o *outcome, request *pbsubstreamsrpc.Request,
 	}
 	o.route = "real"
 	o.do("t1/blocks", func() error {
-		base, err := dstore.NewStore(freshMemoryURL("t1"), "zst", "zstd", true)
+		// a local directory: dstore's in-memory store does not implement WalkFrom, which the output walker needs
+		dir, err := os.MkdirTemp(".", "t1-")
+		if err != nil {
+			return fmt.Errorf("harness: %w", err)
+		}
+		defer os.RemoveAll(dir)
+		base, err := dstore.NewStore(dir, "zst", "zstd", true)
 		if err != nil {
 			return fmt.Errorf("harness: %w", err)
 		}
@@ -248,7 +272,7 @@ func runTier1(ctx context.Context, o *outcome, request *pbsubstreamsrpc.Request,
 		if err != nil {
 			return fmt.Errorf("harness: %w", err)
 		}
-		return service.TestNewService(rc, final, noBlockStreamFactory).TestBlocks(sctx, false, request, discard)
+		return service.TestNewService(rc, final, tier1StreamFactory).TestBlocks(sctx, false, request, discard)
 	})
 }
 
@@ -434,6 +458,6 @@ func runTier2(ctx context.Context, o *outcome, request *pbssinternal.ProcessRang
 		if err != nil {
 			return fmt.Errorf("harness: %w", err)
 		}
-		return service.TestNewServiceTier2(false, noBlockStreamFactory).TestProcessRange(sctx, request, discard)
+		return service.TestNewServiceTier2(false, tier2StreamFactory).TestProcessRange(sctx, request, discard)
 	})
 }
